@@ -1,10 +1,10 @@
 SPECIFICATION Spec
 CONSTANTS
   TTLs = {4, 8}
-  Ticks = {2, 3, 7}
-  MaxOps = 10
-  StatusOnly = FALSE
-  MaxTime = 16
+  Ticks = {3, 7}
+  MaxOps = 6
+  StatusOnly = TRUE
+  MaxTime = 30
 INVARIANT TypeOK
 CONSTRAINT Emit
 CHECK_DEADLOCK FALSE
